@@ -4,16 +4,16 @@ import json, subprocess
 CLAIMED = {
  "C01": ("model-based lock-step simulation of the real TCP (and RTU) server against model::server; byte-exact reply comparison at every quiescent point",
          "seeded simulation: real server tasks on simulated network; reference-model oracle", "4 C01"),
- "C02": ("same runs as C01; instrumented handlers journal every callback, compared with the reference model's expected calls and final point memory",
-         "seeded simulation: handler-journal oracle against reference model", "4 C02"),
+ "C02": ("same runs as C01; instrumented handlers journal every callback, compared with the reference model's expected calls and final point memory; RTU broadcast delivery while an application thread holds a handler mutex is explored by the shuttle engine",
+         "seeded simulation: handler-journal oracle against reference model (thread interleavings: shuttle schedule exploration)", "4 C02"),
  "C03": ("lock-step simulation of the real client task against a recording peer over the boundary lattice: exact MBAP encoding in one frame or rejection with zero bytes on the transport",
          "seeded simulation: recording transport + reference encoder oracle", "4 C03"),
  "C04": ("lock-step simulation: peer answers from the reply mutation grammar; completion compared with model::pdu::decode_reply",
          "seeded simulation: reply-grammar fault injection by the peer; reference decoder oracle", "4 C04"),
  "C06": ("lock-step simulation of the real RTU server over the simulated serial line: corrupted frames (1/2-bit, <=16-bit bursts, CRC variants), chunkings, commands mid-frame; line bytes and handler journal equal model::rtu (independent bitwise CRC) composed with model::server; reopen schedule exact",
          "seeded simulation with line-corruption fault injection; reference-model oracle", "4 C06"),
- "C17": ("same RTU runs (1/5 of frames to unit 0) plus the TCP runs: silence for unconfigured ids, broadcast writes applied once to every unit and never answered, broadcast reads ignored",
-         "seeded simulation; reference-model oracle over unit-id space", "4 C17"),
+ "C17": ("same RTU runs (1/5 of frames to unit 0) plus the TCP runs: silence for unconfigured ids, broadcast writes applied once to every unit and never answered, broadcast reads ignored; broadcast delivery while an application thread holds a handler mutex is explored by the shuttle engine",
+         "seeded simulation; reference-model oracle over unit-id space (thread interleavings: shuttle schedule exploration)", "4 C17"),
  "C07": ("seeded adversarial byte streams (grammar-aware garbage) against all four role/transport combinations at random decode levels with log formatting forced, overflow checks and debug assertions on; panic capture around every poll, spin / runaway-poll watchdogs, healthy-session and fresh-connection liveness after the fault, shutdown honoured",
          "seeded simulation with peer-garbage fault injection; panic/spin watchdogs; bounded liveness after faults stop", "4 C07"),
  "C15": ("lock-step simulation of the real TCP server against model::sessions: ordered live set, eviction of the oldest exactly at the limit, isolation, shutdown / handle drop closes everything",
@@ -65,7 +65,7 @@ man = {
  "setup_cmd": "./check build",
  "hooks": {"guard": "--cfg rodbus_verif_shuttle", "enable": "only the shuttle engine sets it (RUSTFLAGS in /verif/shuttle_engine/.cargo/config.toml): it swaps `use std::sync::{Arc, Mutex}` in rodbus/src/server/handler.rs for shuttle's so that handler-mutex acquisitions are scheduling points. Everything else needs no hook: the seam is dependency substitution via shadow manifests (tokio -> simtokio, tokio-serial -> simserial) and /repo sources are compiled unmodified",
            "baseline_off_cmd": "cd /repo && cargo test --workspace --no-fail-fast --offline", "source_commits": ["ff2eb44"], "add_only": True},
- "engines": [{"name": "shuttle", "path": "shuttle_engine", "serves_properties": ["C19"], "kind_free_text": "shuttle (seeded random + PCT schedulers) over two threads: the simulation driver with the real C-ABI server and an application thread running database transactions; replayable schedule files"},
+ "engines": [{"name": "shuttle", "path": "shuttle_engine", "serves_properties": ["C02", "C17", "C19"], "kind_free_text": "shuttle (seeded random + PCT schedulers) over two threads: the simulation driver with the real server (C-ABI TCP server for C19, RTU server for C02/C17) and an application thread (database transactions / work under a handler mutex); replayable schedule files"},
   {"name": "sim", "path": "sim", "serves_properties": sorted(CLAIMED), "kind_free_text": "deterministic discrete-event simulation of the unmodified rodbus tasks (tokio facade: network, serial, clock, executor, select! start index), seeded choice tape, shrinking, replay"}],
  "checks": checks,
  "not_applicable": [{"property_id": p, "reason": PENDING_REASON} for p in props if p not in CLAIMED],
